@@ -129,6 +129,38 @@ class Ctx:
             self.samples.append(obj)
 
 
+def run_parallel(ctx: "Ctx", worker, tasks: list, procs: int | None = None) -> list:
+    """Run `worker(task)` in forked processes. A worker builds its own `Ctx` (seeded from the task) and
+    returns it via `sub_result(sub)`; violations, counts, samples and notes are merged into `ctx`.
+    Returns the list of per-task `payload` values in task order."""
+    import multiprocessing as mp
+    procs = procs or min(int(os.environ.get("VERIF_PROCS", "14")), max(1, len(tasks)))
+    if procs <= 1 or len(tasks) <= 1:
+        results = [worker(t) for t in tasks]
+    else:
+        with mp.get_context("fork").Pool(procs) as pool:
+            results = pool.map(worker, tasks, chunksize=max(1, len(tasks) // (procs * 4)))
+    payloads = []
+    for r in results:
+        for v in r["violations"]:
+            if len(ctx.violations) < 400:
+                ctx.violations.append(v)
+        for name, n in r["counts"].items():
+            ctx.count(name, n)
+        for smp in r["samples"]:
+            ctx.sample(smp)
+        ctx.notes.extend(r["notes"])
+        for k in r["nontrivial"]:
+            ctx.nontrivial.add(k)
+        payloads.append(r["payload"])
+    return payloads
+
+
+def sub_result(sub: "Ctx", payload=None) -> dict:
+    return {"violations": sub.violations, "counts": {k: v["cases"] for k, v in sub.subspaces.items()},
+            "samples": sub.samples[:3], "notes": sub.notes, "nontrivial": list(sub.nontrivial), "payload": payload}
+
+
 # ---------------------------------------------------------------------------
 # Lean side
 # ---------------------------------------------------------------------------
